@@ -10,8 +10,41 @@ OUTSIDE = ("whole ares_init_options / ares_reinit and the end-to-end ares_getadd
            "one query; their allocation-bearing building blocks are covered separately); MORE than one failing allocation "
            "in one call; ares_buf_load_file (file I/O); ares_buf_replace (computes the match offset as pointer minus "
            "integer-cast pointer, which leaves every later length symbolic for CBMC: SAT out of memory at 6 GB on a 30-byte "
-           "buffer); sizes beyond the stated shapes")
-ASSUMPTIONS = []
+           "buffer); ares_array_set_size from a non-full array of 8-byte members (out of memory at 6 GB; 1- and 4-byte members "
+           "covered); the rest of the system-configuration readers (resolv.conf lines, sortlist, nameserver: C15 runs them on a "
+           "reference ares_array without failure injection - only ares_sysconfig_set_options is covered here, on one concrete "
+           "two-option text); ares_sortaddrinfo, ares_addrinfo_localhost, hosts file; search continuation after the first "
+           "candidate (search_callback -> ares_search_next) with allocation failure (the start is covered); sizes beyond the "
+           "stated shapes (buffers > 32 bytes allocated, arrays > 8 slots, 1 question + 1 RR messages, 4 pre-existing RRs / "
+           "options / strings)")
+ASSUMPTIONS = [
+    "failing position = solver variable, CASE-SPLIT (harness/C14/c14.h C14_SPLIT): the operation is symbolically executed "
+    "once per position with the position a constant and the solver picks the case; a fully symbolic vp_alloc_fail_at turns "
+    "every allocation result into ite(NULL, object) and nothing closes (measured: 236 s -> 0.7 s on ares_buf_append_be32). "
+    "Long scenarios are sliced over several jobs (positions lo..hi per job); the allocation count the slices are derived from "
+    "is measured natively (harness/C14/sweep.py) and BOUND-checked in the harness, so a drift is inconclusive, never a silent gap",
+    "a multi-step append (be16/be32/num_dec/num_hex/hexdump) that fails midway leaves a strict PREFIX of the intended bytes "
+    "appended (no caller relies on atomicity; ares_dns_write_buf truncates back): asserted as such, not as 'unchanged'",
+    "ares_buf_parse_dns_[bin]str may have consumed the length octet when it fails; ares_dns_rr_set_bin on a TXT key is 'clear, "
+    "then add' (a failure while adding leaves the valid empty list); ares_dns_parse leaves *dnsrec untouched when it fails "
+    "before creating a record (callers pass NULL); ares_dns_write may ABSORB the failure of recording a compression target "
+    "(message longer, still correct: asserted by parsing it back)",
+    "pre-states, invariants, reference models and stubs of C19 (buf_step.c, array_step.c, llist/slist/htable_step.c, "
+    "htable_wrap.c), C03 (c03_build.h, c03_common.h, c03_mem.c word-wise memset), C08 (qcache_step.c, abstract records, "
+    "reference key table / expiry list), C01 (search.c: contract stub ares_send_nolock, abstract records), C10 (open_conn.c, "
+    "vsock/world) and harness/machine/send_early.c are reused by inclusion: their assumptions apply",
+    "reused C19 / C10 / machine harnesses carry their own witness names ('insert failed', 'expand failed', 'unfailed run', "
+    "'open failed', 'open ok', 'failed', 'pending' ...) in the role of 'allocation failure reported' / 'no failure'",
+    "search_start_*: the two ALLOCATING functions of the abstract record stub (ares_dns_record_duplicate, "
+    "ares_dns_record_query_set_name) are replaced by all-or-nothing versions (c14_absrec_faithful.c; the shared stub is not "
+    "failure-faithful) - not natively replayable (goto-instrument body replacement)",
+    "qcache_*: reference key-table insert wrapped to be all-or-nothing like the real ares_htable_strvp_insert "
+    "(c14_strvp_ref.c); the real hash table / skip list under allocation failure are the htable_* / wrap_* / slist_* jobs",
+    "array inserts are checked from FULL arrays (the only pre-state in which an insert allocates); rec_rr_add_*_n4 / "
+    "rec_rr_prealloc_n4 use valloc's array-level realloc copy (-DVP_REALLOC_ARRAYCOPY)",
+    "sysconfig_options_*: strtoul/memchr are the loop models of harness/C15/libc_extra.c; memchr/memmem for ares_buf those of "
+    "harness/C19/c19_libc.c",
+]
 
 LIB = ["src/lib/ares_library_init.c", "src/lib/util/ares_math.c"]
 
